@@ -176,6 +176,8 @@ impl Prop for C16 {
         // container level, compared with the model: MSG / STD / mission / old ECL files, pristine and damaged
         out.extend(super::files::gen_cases(rng, scale, true));
         out.extend(super::files::amplification_cases());
+        // the ANM container against `Files.readAnm` (Model/FilesAnm.lean)
+        out.extend(super::files_anm::gen_cases(rng, scale, true));
         // file level
         let mut seeds: Vec<(Format, truth::Game, Vec<u8>, String)> = bundled_files();
         for _ in 0..60 * scale.min(5) {
@@ -216,6 +218,7 @@ impl Prop for C16 {
             Some("rinstr") => eval_rinstr(case),
             Some("rinstrs") => eval_rinstrs(case),
             Some("rfile") => super::files::eval_rfile(case),
+            Some("ranm") => super::files_anm::eval_ranm(case),
             Some("readalloc") => super::files::eval_readalloc(case),
             Some("readfile") => {
                 let a = case.args();
